@@ -1,8 +1,174 @@
 import Pose.Wire
-/-! Driver ops for C20. -/
-namespace PP.Driver
-open PP Wire
+import Pose.Model.Stop
+/-! Driver ops for C20 (stopping controllers).
 
-def opsC20 : List (String × Handler) := []
+State code on the wire: `(steps * 65536 + patience_count) * 2 + (1 if continual else 0)`.
+Observation code: `nodec + 2*below + 4*rej`.  `kind` is `sop` (StopOnPlateau) or `rtb` (ReduceToBason). -/
+namespace PP.Driver
+open PP Wire Stop
+
+namespace C20
+
+def obsOfCode (n : Nat) : Obs := ⟨n % 2 == 1, (n / 2) % 2 == 1, (n / 4) % 2 == 1⟩
+def stCode (s : St) : Nat := (s.steps * 65536 + s.pc) * 2 + (if s.cont then 1 else 0)
+def stOfCode (n : Nat) : St := ⟨n / 2 / 65536, (n / 2) % 65536, n % 2 == 1⟩
+def bit (b : Bool) : Nat := if b then 1 else 0
+
+def stepOf (kind : String) (c : Cfg) : Except String (St → Obs → St) :=
+  match kind with
+  | "sop" => .ok (sopStep c)
+  | "rtb" => .ok (rtbStep c)
+  | _ => .error "bad-kind"
+
+/-- stream of observations from a list: beyond the list the loop must not look (reported as `short`) -/
+def obsFn (os : List Obs) (i : Nat) : Obs := os.getD i default
+
+/-- split a token list into step events (`S x1 … xB`) and resets (`R`) -/
+def parseEvents (B : Nat) : Nat → List String → Except String (List (Ev BigF))
+  | 0, _ => .error "fuel"
+  | _, [] => .ok []
+  | fuel+1, "R" :: rest => do
+      let es ← parseEvents B fuel rest
+      return Ev.reset :: es
+  | fuel+1, "Z" :: rest => do
+      let es ← parseEvents B fuel rest
+      return Ev.resetFixed :: es
+  | fuel+1, "S" :: rest => do
+      let (xs, rest') ← take B rest
+      let v ← nums xs
+      let es ← parseEvents B fuel rest'
+      return Ev.step v :: es
+  | _, t :: _ => .error s!"bad-event:{t}"
+
+def parseOpt : Nat → List String → Except String (List (OptObs BigF))
+  | 0, _ => .error "fuel"
+  | _, [] => .ok []
+  | fuel+1, a :: b :: r :: rest => do
+      let la ← num a
+      let lo ← num b
+      let rc ← int r
+      let es ← parseOpt fuel rest
+      return ⟨la, lo, if rc < 0 then none else some rc.toNat⟩ :: es
+  | _, _ => .error "arity"
+
+/-- numeric ReduceToBason trace; per event `code nodec below` (`code 2 2` for a reset) -/
+def rtbNumTrace (c : Cfg) (d tol : BigF) : RtbSt BigF → List (Ev BigF) → List Nat
+  | _, [] => []
+  | s, e :: es =>
+    let s' := rtbEv c d tol s e
+    let bits := match e with
+      | .step loss => let o := rtbObs d tol s.last loss; [bit o.nodec, bit o.below]
+      | .reset => [2, 2]
+      | .resetFixed => [2, 2]
+    stCode s'.st :: bits ++ rtbNumTrace c d tol s' es
+
+def sopNumTrace (c : Cfg) (d : BigF) : St → List (OptObs BigF) → List Nat
+  | _, [] => []
+  | s, o :: os =>
+    let ob := sopObs d o
+    let s' := sopStepNum c d s o
+    stCode s' :: bit ob.nodec :: bit ob.rej :: sopNumTrace c d s' os
+
+def stepsGo (f : St → Obs → St) : List Nat → List Nat
+  | s :: o :: r => stCode (f (stOfCode s) (obsOfCode o)) :: stepsGo f r
+  | _ => []
+
+def traceGo (kind : String) (f : St → Obs → St) (s : St) : List String → Except String (List Nat)
+  | [] => .ok []
+  | "R" :: r => do
+      if kind != "rtb" then throw "no-reset"
+      let s' := rtbReset s
+      return stCode s' :: (← traceGo kind f s' r)
+  | "Z" :: r => do
+      if kind != "rtb" then throw "no-reset"
+      let s' := rtbResetFixed s
+      return stCode s' :: (← traceGo kind f s' r)
+  | t :: r => do
+      let s' := f s (obsOfCode (← nat t))
+      return stCode s' :: (← traceGo kind f s' r)
+
+end C20
+open C20
+
+def opsC20 : List (String × Handler) := [
+  -- c20.steps kind maxSteps patience (stateCode obsCode)*   -> next state codes (single transitions)
+  ("c20.steps", fun ts => do
+      match ts with
+      | kind :: ms :: pt :: rest =>
+        let c : Cfg := ⟨← int ms, ← int pt⟩
+        let f ← stepOf kind c
+        let xs ← nats rest
+        return fmtNats (stepsGo f xs)
+      | _ => throw "arity"),
+  -- c20.trie kind maxSteps patience L n first_1..first_n later_1..later_n
+  --   -> state codes of all nodes of the trie of words of length <= L, DFS pre-order; the i-th letter has
+  --      observation code first_i on the first step and later_i on later steps
+  ("c20.trie", fun ts => do
+      match ts with
+      | kind :: ms :: pt :: l :: n :: rest =>
+        let c : Cfg := ⟨← int ms, ← int pt⟩
+        let f ← stepOf kind c
+        let L ← nat l
+        let n ← nat n
+        let codes ← nats rest
+        if codes.length != 2 * n then throw "arity"
+        let first := (codes.take n).map obsOfCode
+        let later := (codes.drop n).map obsOfCode
+        let out := match L with
+          | 0 => []
+          | L'+1 => first.flatMap fun o => let s' := f St.init o; s' :: trie f later L' s'
+        return fmtNats (out.map stCode)
+      | _ => throw "arity"),
+  -- c20.trace kind maxSteps patience stateCode (obsCode | R | Z)*   (R: reset as coded, Z: repaired reset)  -> state code after each event
+  ("c20.trace", fun ts => do
+      match ts with
+      | kind :: ms :: pt :: s0 :: rest =>
+        let c : Cfg := ⟨← int ms, ← int pt⟩
+        let f ← stepOf kind c
+        let s0 := stOfCode (← nat s0)
+        return fmtNats (← traceGo kind f s0 rest)
+      | _ => throw "arity"),
+  -- c20.loop <opt|icp|mpc> maxSteps patience k stateCode obsCode*
+  --   opt: StopOnPlateau.optimize from the given state;   icp: ICP.forward;   mpc: MPC.forward after k MPC.__init__
+  --   -> iterations calls finalStateCode     (err short: the loop wanted more observations than supplied)
+  ("c20.loop", fun ts => do
+      match ts with
+      | kind :: ms :: pt :: kk :: s0 :: rest =>
+        let c : Cfg := ⟨← int ms, ← int pt⟩
+        let k ← nat kk
+        let s0 := stOfCode (← nat s0)
+        let os := (← nats rest).map obsOfCode
+        let (it, calls, s) ← match kind with
+          | "opt" => let r := optimize c s0 (obsFn os); pure (r.1, r.1, r.2)
+          | "icp" => pure (icpForward c s0 (obsFn os))
+          | "mpc" => pure (mpcForward (mpcInitN k c) s0 (obsFn os))
+          -- variants for a code base whose reset() clears patience_count (rtbReset {s with pc := 0} = rtbResetFixed s)
+          | "icp0" => pure (icpForward c { s0 with pc := 0 } (obsFn os))
+          | "mpc0" => pure (mpcForward (mpcInitN k c) { s0 with pc := 0 } (obsFn os))
+          | _ => throw "bad-kind"
+        if it > os.length then throw "short"
+        return fmtNats [it, calls, stCode s]
+      | _ => throw "arity"),
+  -- c20.rtb.num maxSteps patience d tol B (S x1..xB | R | Z)*  -> per event: stateCode nodec below
+  ("c20.rtb.num", fun ts => do
+      match ts with
+      | ms :: pt :: d :: tol :: b :: rest =>
+        let c : Cfg := ⟨← int ms, ← int pt⟩
+        let d ← num d
+        let tol ← num tol
+        let B ← nat b
+        let evs ← parseEvents B (rest.length + 1) rest
+        return fmtNats (rtbNumTrace c d tol RtbSt.init evs)
+      | _ => throw "arity"),
+  -- c20.sop.num maxSteps patience d (last loss rejectCount|-1)*  -> per step: stateCode nodec rej
+  ("c20.sop.num", fun ts => do
+      match ts with
+      | ms :: pt :: d :: rest =>
+        let c : Cfg := ⟨← int ms, ← int pt⟩
+        let d ← num d
+        let os ← parseOpt (rest.length + 1) rest
+        return fmtNats (sopNumTrace c d St.init os)
+      | _ => throw "arity")
+]
 
 end PP.Driver
